@@ -6,29 +6,52 @@ Section Proofs.
   Variable L : Learner.
   Variable R : Type.
   Variable pick : R -> value L.
-  Implicit Types (s : dst L R) (h : list (op L R)) (x : point L) (e : list (point L * R)).
+  Implicit Types (s : dst L R) (h : list (op L R)) (x : point L) (e : list (point L * R))
+                 (xrs : list (point L * R)).
 
   Lemma run_cons s o h : run pick s (o :: h) = run pick (fst (step pick s o)) h.
   Proof. reflexivity. Qed.
   Lemma lrun_cons (k : state L) o hh : lrun k (o :: hh) = lrun (fst (lstep k o)) hh.
   Proof. reflexivity. Qed.
+  Lemma lrun_app (k : state L) (h1 h2 : list (lop L)) : lrun k (h1 ++ h2) = lrun (lrun k h1) h2.
+  Proof. unfold lrun. apply fold_left_app. Qed.
 
-  (* one step of the wrapper = one step of the child on the picked op *)
-  Lemma step_child s o :
-    child (fst (step pick s o)) = fst (lstep (child s) (pick_op pick o)) /\
-    snd (step pick s o) = snd (lstep (child s) (pick_op pick o)).
+  (* tell_many is the sequence of its tells *)
+  Lemma tell_many_cons s xr xrs : tell_many pick s (xr :: xrs) = tell_many pick (tell pick s (fst xr) (snd xr)) xrs.
+  Proof. reflexivity. Qed.
+
+  Lemma tell_many_is_tells xrs : forall s,
+    tell_many pick s xrs = run pick s (map (fun xr => Tell (fst xr) (snd xr)) xrs).
   Proof.
-    destruct o as [n c|x r|x|real|]; cbn [step pick_op lstep]; try (split; reflexivity).
-    unfold ask. destruct (GenericLearner.ask L (child s) n c) as [[pts imps] k].
-    split; reflexivity.
+    induction xrs as [|xr xrs IH]; intros s; [reflexivity|].
+    rewrite tell_many_cons. cbn [map]. rewrite run_cons. cbn [step fst]. apply IH.
+  Qed.
+
+  Lemma tell_many_child xrs : forall s,
+    child (tell_many pick s xrs) =
+    lrun (child s) (map (fun xr => LTell (fst xr) (pick (snd xr))) xrs).
+  Proof.
+    induction xrs as [|xr xrs IH]; intros s; [reflexivity|].
+    rewrite tell_many_cons, IH. cbn [map]. rewrite lrun_cons. reflexivity.
+  Qed.
+
+  (* one step of the wrapper = the picked op(s) on the child *)
+  Lemma step_child s o :
+    child (fst (step pick s o)) = lrun (child s) (pick_ops pick o) /\
+    snd (step pick s o) = out_on_child pick (child s) o.
+  Proof.
+    destruct o as [n c|x r|xrs|x|real|]; cbn [step pick_ops out_on_child]; try (split; reflexivity).
+    - unfold ask. unfold lrun. cbn [fold_left lstep].
+      destruct (GenericLearner.ask L (child s) n c) as [[pts imps] k]. split; reflexivity.
+    - cbn [fst snd]. split; [apply tell_many_child|reflexivity].
   Qed.
 
   Lemma bisimulation h : forall s,
-    child (run pick s h) = lrun (child s) (map (pick_op pick) h) /\
-    trace pick s h = ltrace (child s) (map (pick_op pick) h).
+    child (run pick s h) = lrun (child s) (flat_map (pick_ops pick) h) /\
+    trace pick s h = ctrace pick (child s) h.
   Proof.
     induction h as [|o h IH]; intros s; [split; reflexivity|].
-    cbn [map]. rewrite run_cons, lrun_cons. cbn [trace ltrace].
+    cbn [flat_map]. rewrite run_cons, lrun_app. cbn [trace ctrace].
     destruct (step_child s o) as [Hc Ho].
     destruct (IH (fst (step pick s o))) as [H1 H2].
     rewrite H1, H2, Hc, Ho. split; reflexivity.
@@ -37,7 +60,7 @@ Section Proofs.
   (* everything reached through __getattr__ (data, pending_points, npoints,
      ...) and loss are the unwrapped learner's *)
   Lemma bisimulation_obs A (attr : state L -> A) h s :
-    getattr attr (run pick s h) = attr (lrun (child s) (map (pick_op pick) h)).
+    getattr attr (run pick s h) = attr (lrun (child s) (flat_map (pick_ops pick) h)).
   Proof. unfold getattr. destruct (bisimulation h s) as [-> _]. reflexivity. Qed.
 
   (* ---------------- extra_data ---------------- *)
@@ -57,50 +80,50 @@ Section Proofs.
       rewrite (peq_sym PL) in E1. rewrite (peq_trans PL _ _ _ E2 E1) in E0. discriminate.
   Qed.
 
-  (* the last full result told for (a point equal to) x *)
-  Definition last_told_from (acc : option R) x h : option R :=
-    fold_left (fun acc o => match o with
-                            | Tell x' r => if peqb L x' x then Some r else acc
-                            | _ => acc
-                            end) h acc.
-  Definition last_told x h := last_told_from None x h.
+  (* the last full result among [xrs] told for (a point equal to) x *)
+  Definition last_of (acc : option R) x xrs : option R :=
+    fold_left (fun acc xr => if peqb L (fst xr) x then Some (snd xr) else acc) xrs acc.
+  Definition last_told x h := last_of None x (tolds h).
+
+  Lemma last_of_app acc x l1 l2 : last_of acc x (l1 ++ l2) = last_of (last_of acc x l1) x l2.
+  Proof. unfold last_of. apply fold_left_app. Qed.
+
+  Lemma extra_tell_many x xrs : forall s,
+    alookup L x (extra (tell_many pick s xrs)) = last_of (alookup L x (extra s)) x xrs.
+  Proof.
+    induction xrs as [|xr xrs IH]; intros s; [reflexivity|].
+    rewrite tell_many_cons, IH. cbn [tell extra]. rewrite alookup_aset. reflexivity.
+  Qed.
 
   Lemma extra_step s o x :
-    alookup L x (extra (fst (step pick s o))) =
-    match o with
-    | Tell x' r => if peqb L x' x then Some r else alookup L x (extra s)
-    | _ => alookup L x (extra s)
-    end.
+    alookup L x (extra (fst (step pick s o))) = last_of (alookup L x (extra s)) x (told_of o).
   Proof.
-    destruct o as [n c|x' r|x'|real|]; cbn [step fst]; try reflexivity.
+    destruct o as [n c|x' r|xrs|x'|real|]; cbn [step fst told_of]; try reflexivity.
     - unfold ask. destruct (GenericLearner.ask L (child s) n c) as [[pts imps] k]. reflexivity.
-    - cbn [tell extra]. apply alookup_aset.
+    - cbn [tell extra]. rewrite alookup_aset. reflexivity.
+    - apply extra_tell_many.
   Qed.
 
   Lemma extra_lookup h : forall s x,
-    alookup L x (extra (run pick s h)) = last_told_from (alookup L x (extra s)) x h.
+    alookup L x (extra (run pick s h)) = last_of (alookup L x (extra s)) x (tolds h).
   Proof.
     induction h as [|o h IH]; intros s x; [reflexivity|].
-    rewrite run_cons, IH, extra_step. unfold last_told_from. cbn [fold_left].
-    destruct o; reflexivity.
+    rewrite run_cons, IH, extra_step. unfold tolds. cbn [flat_map]. rewrite last_of_app. reflexivity.
   Qed.
 
   Lemma extra_data_value h (k : state L) x :
     alookup L x (extra (run pick (DataSaver.init L R k) h)) = last_told x h.
   Proof. apply extra_lookup. Qed.
 
-  Lemma last_told_from_some acc x h :
-    (exists r, last_told_from acc x h = Some r) <->
-    ((exists r, acc = Some r) \/ exists x' r, In (Tell x' r) h /\ peqb L x' x = true).
+  Lemma last_of_some acc x xrs :
+    (exists r, last_of acc x xrs = Some r) <->
+    ((exists r, acc = Some r) \/ exists x' r, In (x', r) xrs /\ peqb L x' x = true).
   Proof.
-    revert acc. induction h as [|o h IH]; intros acc.
+    revert acc. induction xrs as [|[x0 r0] xrs IH]; intros acc.
     - cbn. split; [intros H; left; exact H|intros [H|[x' [r [[] _]]]]; exact H].
-    - unfold last_told_from in *. cbn [fold_left]. rewrite IH. cbn [In].
-      destruct o as [n c|x' r|x'|real|];
-        try (split; [intros [H|[x1 [r1 [H1 H2]]]]; [left; exact H|right; exists x1, r1; auto]
-                    |intros [H|[x1 [r1 [[H1|H1] H2]]]]; [left; exact H|discriminate H1|right; exists x1, r1; auto]]).
-      destruct (peqb L x' x) eqn:E.
-      + split; [intros _; right; exists x', r; auto|intros _; left; eexists; reflexivity].
+    - unfold last_of in *. cbn [fold_left fst snd]. rewrite IH. cbn [In].
+      destruct (peqb L x0 x) eqn:E.
+      + split; [intros _; right; exists x0, r0; auto|intros _; left; eexists; reflexivity].
       + split.
         * intros [H|[x1 [r1 [H1 H2]]]]; [left; exact H|right; exists x1, r1; auto].
         * intros [H|[x1 [r1 [[H1|H1] H2]]]]; [left; exact H| |right; exists x1, r1; auto].
@@ -110,9 +133,9 @@ Section Proofs.
   (* keys of extra_data = the told points *)
   Lemma extra_data_keys h (k : state L) x :
     (exists r, alookup L x (extra (run pick (DataSaver.init L R k) h)) = Some r) <->
-    (exists x' r, In (Tell x' r) h /\ peqb L x' x = true).
+    (exists x' r, In (x', r) (tolds h) /\ peqb L x' x = true).
   Proof.
-    rewrite extra_data_value. unfold last_told. rewrite last_told_from_some.
+    rewrite extra_data_value. unfold last_told. rewrite last_of_some.
     split; [intros [[r H]|H]; [discriminate H|exact H]|intros H; right; exact H].
   Qed.
 
@@ -135,12 +158,19 @@ Section Proofs.
     rewrite (peq_sym PL). exact E.
   Qed.
 
+  Lemma tell_many_distinct xrs : forall s, distinct_keys (extra s) -> distinct_keys (extra (tell_many pick s xrs)).
+  Proof.
+    induction xrs as [|xr xrs IH]; intros s H; [exact H|].
+    rewrite tell_many_cons. apply IH. cbn [tell extra]. apply aset_distinct. exact H.
+  Qed.
+
   Lemma extra_distinct h : forall s, distinct_keys (extra s) -> distinct_keys (extra (run pick s h)).
   Proof.
     induction h as [|o h IH]; intros s H; [exact H|]. rewrite run_cons. apply IH.
-    destruct o as [n c|x' r|x'|real|]; cbn [step fst]; try exact H.
+    destruct o as [n c|x' r|xrs|x'|real|]; cbn [step fst]; try exact H.
     - unfold ask. destruct (GenericLearner.ask L (child s) n c) as [[pts imps] k]. exact H.
     - cbn [tell extra]. apply aset_distinct. exact H.
+    - apply tell_many_distinct. exact H.
   Qed.
 
   (* ---------------- _get_data / _set_data ---------------- *)
